@@ -40,6 +40,21 @@ claim(
     "DESIGN.md §7 C19",
 )
 
+claim(
+    "C12",
+    "Lean 4 proof (two-way simulation between the visitor's bookkeeping and a declarative bracket automaton); differential correspondence with DiscoverSubcircuits",
+    "Theorems C12_iff, C12_count, C12_errors(_loop) prove for every nesting of blocks and loops (any depth, any counts incl. 0) that subcircuit discovery accepts exactly the programs whose flat token sequence is well-bracketed per the property text (a subcircuit is open at every gate, every measure follows a prepare, no repeating loop closes a subcircuit that was open when its body began), that the traces are exactly the prepare/measure pairs in flat order (trailing prepare yields none, a repeated prepare discards the earlier opening), and that each rejection class names the violated rule.",
+    COMMON_NOTE + "Statements are abstracted to a skeleton (prepare | measure | other gate, block, loop); macro expansion (C04) and the disjointness check (C13) are separate components; reading of the English rule as stated in the evidence assumptions.",
+    "DESIGN.md §7 C12",
+)
+claim(
+    "C08",
+    "Lean 4 proof (refinement of the fuel-indexed walker to a tree-recursive specification, explicit fuel bound) + differential correspondence with run_jaqal_circuit / parse_jaqal_output_list under an alarm",
+    "Theorems C08_terminates, C08_order, C08_unroll, C08_zero, C08_indices (and C03_serialize for the per-trace gate list) prove for every accepted nesting that the trace walker terminates within an explicit fuel bound, emits exactly the subcircuit visits of the unrolled program in order (a visit = executing the gate at which the trace starts), that loops with count ≤ 0 contribute none while their subcircuits stay numbered, and that readout indices are 0,1,2,… with per-subcircuit counts equal to occurrences. Direct oracles on the real code add: let-valued and overridden loop counts behave like literals, hardware output lists are consumed in visit order, sampled outcomes have non-zero probability, relative frequencies count own readouts.",
+    COMMON_NOTE + "numpy.random.choice is an external oracle (checked per readout, not proved); the real code is run under a 5–10 s alarm, a timeout is a failure.",
+    "DESIGN.md §7 C08",
+)
+
 ALL = [f"C{n:02d}" for n in range(1, 21)]
 READY = set(os.environ.get("VERIF_READY", "C19").split(","))
 
